@@ -32,6 +32,13 @@ func TestC13_Boosts(t *testing.T) {
 		qtoks := ref.Tokenize(q)
 		pool := append(append([]string{"zzqx", "git", "docker", "build"}, toks...), qtoks...)
 		pool = append(pool, qtoks...) // query words are the interesting ones
+		for _, w := range qtoks {
+			// near misses of query words: another word, however similar, is another word
+			pool = append(pool, w+"s", w+"es", w+"ing", "x"+w, w+w)
+			if len(w) > 2 {
+				pool = append(pool, w[:len(w)-1])
+			}
+		}
 		boosts := map[string]float64{}
 		for i := rapid.IntRange(1, 3).Draw(t, "nb"); i > 0; i-- {
 			boosts[rapid.SampledFrom(pool).Draw(t, "bw")] = rapid.SampledFrom([]float64{1, 1.3, 1.5, 2, 2.5, 3, 5}).Draw(t, "bf")
